@@ -112,6 +112,8 @@ func c16History(k *fw.K, B, D, O int) {
 	if !bound {
 		fwd = func(xs ...tensor.Tensor) (tensor.Tensor, error) { return fc.Forward(xs...) }
 	}
+	viaInput := k.Rng.Intn(3) == 0
+	input := layers.NewInput()
 	forward := func(tag string, track bool) (x *ref.T, rx, ry tensor.Tensor, ok bool) {
 		if B <= 6 && k.Rng.Intn(3) == 0 && tag != "Forward before back-propagation" {
 			B = 1 + k.Rng.Intn(6) // the same layer sees batches of different sizes
@@ -126,8 +128,60 @@ func c16History(k *fw.K, B, D, O int) {
 		}
 		x = Shuffled(k.Rng, Unique(k.Rng, []int{B, D}, 0.2, 2))
 		rx = rt.MustLeaf(x, track)
-		if p := call(func() { ry, err = fwd(rx) }); p != nil || err != nil || ry == nil {
+		if track && k.Rng.Intn(3) == 0 { // the tracked input is itself the result of a shape operation on a tracked feature map
+			feat := rt.MustLeaf(ref.New([]int{B, D, 1}, x.Data), true)
+			switch k.Rng.Intn(3) {
+			case 0:
+				rx, err = feat.Flatten(1)
+			case 1:
+				rx, err = feat.Squeeze(2)
+			default:
+				rx, err = feat.Reshape([]int{B, D})
+			}
+			if err != nil {
+				k.Failf("%s: harness: %v", tag, err)
+				return nil, nil, nil, false
+			}
+			k.Count("tracked_inputs_derived_by_a_shape_operation", 1)
+		}
+		guard := argGuard(rx)
+		ins := []tensor.Tensor{rx} // the call spreads a slice the caller keeps
+		if viaInput {              // the batch reaches the layer through an Input layer that hands the same tensor out twice (two heads)
+			input.SeedFunc = func() tensor.Tensor { return rx }
+			for hand := 0; hand < 2; hand++ {
+				var h tensor.Tensor
+				if p := call(func() { h, err = input.Forward() }); p != nil || err != nil || h == nil {
+					k.Failf("%s: Input.Forward failed: panic=%v err=%v", tag, p, err)
+					return nil, nil, nil, false
+				}
+				if hand == 0 {
+					call(func() { _, _ = fc.Forward(h) }) // the first head; its result is not used further
+				}
+				ins[0] = h
+			}
+			k.Count("forward_calls_fed_through_an_Input_layer", 1)
+			if msg := guard(); msg != "" {
+				k.Failf("%s: handing the batch out through the Input layer changed it: %s", tag, msg)
+				return nil, nil, nil, false
+			}
+			if hv, e := rt.Read(ins[0]); e != nil || rt.CompareRef(hv, x, 0, 0, nil, 0) != nil {
+				k.Failf("%s: the Input layer does not hand out the seed tensor's values (%v)", tag, e)
+				return nil, nil, nil, false
+			}
+			rx = ins[0]
+			guard = argGuard(rx)
+		}
+		fed := ins[0]
+		if p := call(func() { ry, err = fwd(ins...) }); p != nil || err != nil || ry == nil {
 			k.Failf("%s: Forward (method value bound before the replacements: %v) failed: panic=%v err=%v", tag, bound, p, err)
+			return nil, nil, nil, false
+		}
+		if msg := guard(); msg != "" {
+			k.Failf("%s: Forward changed its input tensor: %s", tag, msg)
+			return nil, nil, nil, false
+		}
+		if len(ins) != 1 || ins[0] != fed {
+			k.Failf("%s: Forward(ins...) overwrote the caller's argument slice", tag)
 			return nil, nil, nil, false
 		}
 		want, _ := ref.FC(x, curW, curB)
@@ -180,12 +234,12 @@ func c16History(k *fw.K, B, D, O int) {
 		}
 		if which != 1 {
 			curW = Shuffled(k.Rng, Unique(k.Rng, []int{O}, 0.2, 2))
-			*ws[0].Value = rt.MustLeaf(curW, true)
+			*ws[0].Value = c16Param(k, curW)
 			log = append(log, "replace W")
 		}
 		if which != 0 {
 			curB = Shuffled(k.Rng, Unique(k.Rng, []int{O}, 0.2, 2))
-			*ws[1].Value = rt.MustLeaf(curB, true)
+			*ws[1].Value = c16Param(k, curB)
 			log = append(log, "replace B")
 		}
 		if _, _, _, ok := forward(fmt.Sprintf("Forward after replacement %d (%s)", r+1, []string{"W", "B", "W and B"}[which]), false); !ok {
@@ -313,6 +367,30 @@ func c16History(k *fw.K, B, D, O int) {
 		return
 	}
 	k.Failf("FC (batch %d, features %d, outputs %d): %s", B, D, O, anyMismatch)
+}
+
+// c16Param: a replacement parameter is a tracked leaf or, one time in three, the tracked RESULT of a shape operation on a
+// tracked [Outputs,1] / [1,Outputs] matrix (Squeeze, Flatten, Reshape) - still a tensor of shape [Outputs] that must receive its gradient.
+func c16Param(k *fw.K, v *ref.T) tensor.Tensor {
+	if k.Rng.Intn(3) != 0 {
+		return rt.MustLeaf(v, true)
+	}
+	n := len(v.Data)
+	k.Count("parameters_derived_by_a_shape_operation", 1)
+	var t tensor.Tensor
+	var err error
+	switch k.Rng.Intn(3) {
+	case 0:
+		t, err = rt.MustLeaf(ref.New([]int{n, 1}, v.Data), true).Squeeze(1)
+	case 1:
+		t, err = rt.MustLeaf(ref.New([]int{1, n}, v.Data), true).Flatten(0)
+	default:
+		t, err = rt.MustLeaf(ref.New([]int{n, 1}, v.Data), true).Reshape([]int{n})
+	}
+	if err != nil {
+		panic("harness: derived parameter: " + err.Error())
+	}
+	return t
 }
 
 func c16Defaults(k *fw.K) {
